@@ -1,7 +1,7 @@
 (* C14 -- the generated configuration is well formed; the limit checks found in the
    source implement the limits; concrete non-vacuity witnesses. *)
 From Coq Require Import List ZArith Bool Lia Permutation.
-From LJT Require Import model.MemMgr model.TjInit model.DestBuf model.MemCfg gen.GenMemConst proofs.MemMgrProofs proofs.MemMgrWrap proofs.MemMgrLimits proofs.TjInitProofs proofs.DestBufProofs.
+From LJT Require Import model.MemMgr model.TjInit model.DestBuf model.VirtAccess model.MemCfg gen.GenMemConst proofs.MemMgrProofs proofs.MemMgrWrap proofs.MemMgrLimits proofs.TjInitProofs proofs.DestBufProofs proofs.VirtAccessProofs proofs.MemMgrGeom.
 Import ListNotations.
 Local Open Scope Z_scope.
 
@@ -146,3 +146,37 @@ Lemma destbuf_nonvacuous :
              mkcall MLib 0 EInitFail false; mkcall MReuse 2 EThrow false; mkcall MLib 1 EFinish false; mkcall MReuse 3 EFinish false] in
   (10 <=? b_nxt (final dcfg_tj cs)) = true /\ b_live (run_calls dcfg_tj ds0 cs) <> [] /\ b_live (final dcfg_tj cs) = [].
 Proof. vm_compute. repeat split; congruence. Qed.
+
+(* ---- source constants: ALIGN_SIZE is a power of two, so the C bit-mask round-up is the model's round-up ---- *)
+Lemma source_round_up_is_mask : forall a,
+  rup wid a align_simd = Z.land (a + align_simd - 1) (Z.lnot (align_simd - 1)) /\
+  rup wid a align_nosimd = Z.land (a + align_nosimd - 1) (Z.lnot (align_nosimd - 1)).
+Proof.
+  intros a. unfold rup, wid. change align_simd with (2 ^ 5). change align_nosimd with (2 ^ 3).
+  rewrite !rup_is_bitmask by lia. split; reflexivity.
+Qed.
+
+(* the header plus worst-case padding is what alloc_small / alloc_large add to every request *)
+Lemma source_overhead : pool_hdr_size + align_simd - 1 = 55 /\ pool_hdr_size + align_nosimd - 1 = 31 /\
+  max_alloc_chunk mod align_simd = 0 /\ max_alloc_chunk mod align_nosimd = 0.
+Proof. vm_compute. repeat split; reflexivity. Qed.
+
+(* ---- virtual arrays: a window of 16 rows over 40 rows, swapped through a backing store ---- *)
+Definition ex_va : varray :=
+  {| a_rows := 40; a_maxacc := 8; a_inmem := 16; a_rpc := 5; a_cur := 0; a_undef := 0; a_prezero := true; a_dirty := false;
+     a_bsopen := true; a_real := true; a_mem := fun _ => None; a_file := fun _ => None |}.
+Definition ex_vops : list vop :=
+  [VWrite 0 [1; 2; 3; 4; 5; 6; 7; 8]; VWrite 8 [9; 10; 11; 12; 13; 14; 15; 16]; VWrite 16 [17; 18; 19; 20; 21; 22; 23; 24];
+   VRead 0 4; VWrite 30 [1]; VRead 20 8; VRead 36 4; VWrite 24 [25; 26; 27; 28; 29; 30; 31; 32]; VRead 4 8; VRead 33 8].
+
+Lemma ex_va_VI : forall L, VI ex_va L.
+Proof. intros. split; [unfold geom, ex_va; simpl; repeat split; try lia; intros; discriminate | intros r Hr; simpl in Hr; lia]. Qed.
+
+Lemma ex_vrun :
+  snd (vrun ex_va ex_vops) =
+  [inr []; inr []; inr []; inr [Some 1; Some 2; Some 3; Some 4]; inl BadVirtualAccess;
+   inr [Some 21; Some 22; Some 23; Some 24; Some 0; Some 0; Some 0; Some 0]; inr [Some 0; Some 0; Some 0; Some 0]; inr [];
+   inr [Some 5; Some 6; Some 7; Some 8; Some 9; Some 10; Some 11; Some 12]; inl BadVirtualAccess] /\
+  a_cur (fst (vrun ex_va ex_vops)) = 0 /\ a_undef (fst (vrun ex_va ex_vops)) = 32.
+
+Proof. vm_compute. repeat split; reflexivity. Qed.
